@@ -243,7 +243,9 @@ REJECT_CASES = [
     {"params": {}, "why": "no rule source"},
     {"params": {"gf": True}, "why": "no rule source"},
     {"params": {"mark_heads_rulefile": "/nonexistent/head.rules"}, "why": "rule file does not exist"},
-    {"params": {"mark_heads_rulefile": ""}, "why": "empty rule file name, no preset: no rule source"},
+    # {"mark_heads_rulefile": ""} is deliberately NOT in this list: whether an empty file name is a
+    # "missing rule source" is not decided by the property text (the code treats it as "no rules",
+    # every leftmost child becomes head); demanding a rejection would be stricter than the property.
 ]
 
 
